@@ -23,7 +23,7 @@ CHECKS = {
     category="model_checking",
     text="ShouldStamp in Index.tla decides stamping against the previous index state; the action property StampIff restates it against a ghost record of what the user last had indexed (GhostAgrees ties the two); TLC checks both on bounded multi-day histories including stamps removed by hand. Simulated multi-day histories are replayed on real directories: after every reindex stamps in files and rows must be the TLC successor's, every other line unchanged, and a second reindex a no-op.",
     design_ref="DESIGN.md section 6 C11",
-    note="Trusts as C05; days are consecutive calendar days from 2024-05-10.",
+    note="Trusts as C05; days are consecutive calendar days from 2024-12-29 (histories cross the year).",
     technique="TLA+ spec (Index.tla StampIff, Bus.tla) + TLC + S->I replay with per-step state comparison; I->S: random histories (Trace_Index) and scripted `zorg edit` sessions (Trace_Bus)"),
  "C07": dict(
     category="model_checking",
